@@ -22,6 +22,8 @@ def run(F, rep):
     rep.run(dt_graph.get_valid_exts_table, F, rep, "C03.4")
     rep.run(dt_graph.fix_exts_table, F, rep, "C03.4")
     rep.run(dt_graph.censor_tables, F, rep, "C03.5")
+    # "... or censored": the driver of the graph route is where the caller's censor list becomes the set the pruning runs against
+    rep.run(dt_compress.graph_driver_table, F, rep, "C03.5")
     rep.run(dt_graph.max_path_table, F, rep, "C03.7")
     rep.run(dt_graph.beam_expand_table, F, rep, "C03.7")
     rep.run(dt_graph.sequence_of_path_table, F, rep, "C03.8")
